@@ -170,11 +170,14 @@ class HTTPFile(io.IOBase):
         data = b""
         pos = start
         for chunk_index in range(chunk_start, chunk_stop):
+            if toread == 0:
+                # Nothing left to read. Do not fetch the next chunk: for
+                # a range that ends on a chunk boundary it is not needed,
+                # and at the end of the resource it does not exist.
+                break
             chunk = self.get_cache_chunk(chunk_index)
             chunk_start = pos % self._chunk_size
-            if toread == 0:
-                break
-            elif chunk_start + toread >= self._chunk_size:
+            if chunk_start + toread >= self._chunk_size:
                 data += chunk[chunk_start:]
                 chunks_read = self._chunk_size - chunk_start
             else:
